@@ -737,6 +737,7 @@ func grammarShards(tier string) []mc.Shard {
 			zero := model.AppendVarfloat([]byte{1 << 2}, 0.5)
 			distinct := map[string]struct{}{}
 			try := func(stream []byte, blocks []blk, zeroW float64, withMap bool) bool {
+				mc.ProgressInput("decoding the stream", stream, 0)
 				for _, t := range codecTargets {
 					skip := false
 					for _, b := range blocks {
